@@ -84,6 +84,11 @@ func (t *DestinationTask) Close(ctx context.Context) error {
 
 func (t *DestinationTask) Do(ctx context.Context, batch *Batch) error {
 	records := batch.ActiveRecords()
+	// Resolve the physical indices of the active records once, before any
+	// record is marked: nacking a member of a split run changes the active set
+	// (see Batch.nackPhysical), which would shift the indices of every later
+	// ack response of a destination that confirms a batch in several responses.
+	physical := batch.activeRecordIndices()
 
 	// Store the positions of the records in the batch to be used for
 	// validation of acks.
@@ -109,7 +114,7 @@ func (t *DestinationTask) Do(ctx context.Context, batch *Batch) error {
 			return cerrors.Errorf("failed to validate acks: %w", err)
 		}
 		t.metrics.Observe(records[ackCount:ackCount+len(acks)], start)
-		t.markBatchRecords(batch, ackCount, acks)
+		t.markBatchRecords(batch, physical, ackCount, acks)
 
 		ackCount += len(acks)
 		if ackCount >= len(positions) {
@@ -163,10 +168,19 @@ func (t *DestinationTask) validateAcks(acks []connector.DestinationAck, position
 // index in chunk 1 — closing that would require resolving all physical
 // indices up front, before any mutation. Do not read this reversal as a
 // blanket guarantee against index shift across the whole batch.
-func (t *DestinationTask) markBatchRecords(b *Batch, from int, acks []connector.DestinationAck) {
+//
+// physical holds the physical indices of the active records, resolved by Do
+// once, up front (nil means no record was filtered: active indices are
+// physical already), which is what closes the cross-chunk shift described
+// above: a Nack on a split run re-flags the run's filtered members.
+func (t *DestinationTask) markBatchRecords(b *Batch, physical []int, from int, acks []connector.DestinationAck) {
 	for i := len(acks) - 1; i >= 0; i-- {
 		if acks[i].Error != nil {
-			b.Nack(from+i, acks[i].Error)
+			idx := from + i
+			if physical != nil {
+				idx = physical[idx]
+			}
+			b.nackPhysical(idx, acks[i].Error)
 		}
 	}
 }
